@@ -115,6 +115,7 @@ type eng struct {
 	labels map[string]bool
 
 	rlReg, rlRem, svReg, svRem int // number of accepted requests so far = next request id
+	pm                         map[string]node_manager.Status // the harness's own pool bookkeeping: key string -> status
 	persist                    bool
 }
 
@@ -143,7 +144,99 @@ func newEng(ctx *ev.Ctx, n int, o engOpts) *eng {
 	for i, a := range e.actors {
 		e.byAddr[a.Address] = i
 	}
+	e.pm = map[string]node_manager.Status{}
+	for i := 0; i < n; i++ { // the genesis configuration the harness itself built
+		e.pm[world.PubHex(world.Acct(i))] = node_manager.ConsensusStatus
+	}
 	return e
+}
+
+// ---- the harness's own bookkeeping of the validator pool, driven only by what the transactions
+// did (accepted / took effect), following the statement of C34: an approved candidate is a
+// candidate member, a quit makes the member quitting, a blacklisting that took effect makes the
+// listed members blacklisted and - if one of them was a consensus member - changes the epoch, an
+// accepted commitDpos changes the epoch; an epoch change drops quitting and blacklisted members and
+// makes every other member a consensus member.
+
+func (e *eng) pmEpoch() {
+	for k, st := range e.pm {
+		if st == node_manager.QuitingStatus || st == node_manager.BlackStatus {
+			delete(e.pm, k)
+		} else {
+			e.pm[k] = node_manager.ConsensusStatus
+		}
+	}
+}
+
+func (e *eng) pmUpdate(sr stepRes) {
+	if !sr.res.OK() {
+		return
+	}
+	switch sr.op.K {
+	case kApprCand:
+		if sr.fired {
+			e.pm[sr.t.pub] = node_manager.CandidateStatus
+		}
+	case kQuit:
+		e.pm[sr.t.pub] = node_manager.QuitingStatus
+	case kBlack:
+		if sr.fired {
+			epoch := false
+			for _, k := range sr.t.pubs {
+				if e.pm[k] == node_manager.ConsensusStatus {
+					epoch = true
+				}
+				e.pm[k] = node_manager.BlackStatus
+			}
+			if epoch {
+				e.pmEpoch()
+			}
+		}
+	case kCommit:
+		e.pmEpoch()
+	case kInitCfg: // accepted again after genesis (defect F6, fixed): the pool was replaced wholesale
+		e.label("pool-model-resynchronised-after-initConfig")
+		e.pm = map[string]node_manager.Status{}
+		for k, it := range e.pool().Items {
+			e.pm[k] = it.Status
+		}
+	}
+}
+
+// validators returns the current consensus validators according to the harness's own pool
+// bookkeeping (address -> number of entries, addresses in key order, count), after cross-checking
+// the bookkeeping against the contract's pool: a difference is reported as a harness-model mismatch.
+func (e *eng) validators() (addrs map[common.Address]int, order []common.Address, n int) {
+	real := e.pool()
+	for k, st := range e.pm {
+		if it, ok := real.Items[k]; !ok || it.Status != st {
+			e.ctx.Failf("harness-model mismatch: the harness's pool bookkeeping has %s with status %d, the contract's pool has present=%v status %d", short(k), st, ok, it.Status)
+		}
+	}
+	for k, it := range real.Items {
+		if _, ok := e.pm[k]; !ok {
+			e.ctx.Failf("harness-model mismatch: the contract's pool holds %s (status %d) which the harness's pool bookkeeping does not have", short(k), it.Status)
+		}
+	}
+	addrs = map[common.Address]int{}
+	keys := make([]string, 0, len(e.pm))
+	for k := range e.pm {
+		keys = append(keys, k)
+	}
+	sort.Strings(keys)
+	for _, k := range keys {
+		if e.pm[k] != node_manager.ConsensusStatus {
+			continue
+		}
+		n++
+		if a, ok := addrOfPub(k); ok {
+			if addrs[a] == 0 {
+				order = append(order, a)
+			}
+			addrs[a]++
+		}
+	}
+	return
 }
 
 // newWorld is world.New(n, Opts{MaxBlockChangeView: mbcv}) without its per-call cost: world.New
@@ -425,6 +518,7 @@ func ceil2of3(n int) int { // ceil(2n/3)
 }
 
 type scRec struct {
+	Chain   uint64
 	Owner   common.Address
 	Router  uint64
 	Name    string
@@ -438,14 +532,60 @@ func recOf(s *side_chain_manager.SideChain) scRec {
 	if s == nil {
 		return scRec{}
 	}
-	return scRec{Owner: s.Address, Router: s.Router, Name: s.Name, Blocks: s.BlocksToWait, CCMC: string(s.CCMCAddress), Extra: string(s.ExtraInfo), Present: true}
+	return scRec{Chain: s.ChainId, Owner: s.Address, Router: s.Router, Name: s.Name, Blocks: s.BlocksToWait, CCMC: string(s.CCMCAddress), Extra: string(s.ExtraInfo), Present: true}
 }
 
 func (r scRec) String() string {
 	if !r.Present {
 		return "<none>"
 	}
-	return fmt.Sprintf("{owner %s router %d name %q blocks %d ccmc %x extra %x}", r.Owner.ToBase58(), r.Router, r.Name, r.Blocks, r.CCMC, r.Extra)
+	return fmt.Sprintf("{chain %d owner %s router %d name %q blocks %d ccmc %x extra %x}", r.Chain, r.Owner.ToBase58(), r.Router, r.Name, r.Blocks, r.CCMC, r.Extra)
+}
+
+// ---- the stored side-chain record, byte for byte, against the harness's own encoding (written from the
+// wire format: var-bytes owner, var-uint chain id, var-uint router, var-bytes name, var-uint blocks-to-wait,
+// var-bytes CCMC address, var-bytes extra info) - independent of the contract's (de)serialisers
+
+func refVarUint(v uint64) []byte {
+	switch {
+	case v < 0xFD:
+		return []byte{byte(v)}
+	case v <= 0xFFFF:
+		return []byte{0xFD, byte(v), byte(v >> 8)}
+	case v <= 0xFFFFFFFF:
+		return []byte{0xFE, byte(v), byte(v >> 8), byte(v >> 16), byte(v >> 24)}
+	}
+	b := []byte{0xFF, 0, 0, 0, 0, 0, 0, 0, 0}
+	for i := 0; i < 8; i++ {
+		b[1+i] = byte(v >> (8 * uint(i)))
+	}
+	return b
+}
+
+func refVarBytes(b []byte) []byte { return append(refVarUint(uint64(len(b))), b...) }
+
+func (r scRec) refBytes() []byte {
+	var out []byte
+	out = append(out, refVarBytes(r.Owner[:])...)
+	out = append(out, refVarUint(r.Chain)...)
+	out = append(out, refVarUint(r.Router)...)
+	out = append(out, refVarBytes([]byte(r.Name))...)
+	out = append(out, refVarUint(r.Blocks)...)
+	out = append(out, refVarBytes([]byte(r.CCMC))...)
+	out = append(out, refVarBytes([]byte(r.Extra))...)
+	return out
+}
+
+// scStoredCheck compares the raw stored registry entry of a chain with the harness encoding of want.
+func (e *eng) scStoredCheck(what string, want scRec) {
+	var le [8]byte
+	for i := 0; i < 8; i++ {
+		le[i] = byte(want.Chain >> (8 * uint(i)))
+	}
+	raw := e.w.Get(utils.ConcatKey(utils.SideChainManagerContractAddress, []byte(side_chain_manager.SIDE_CHAIN), le[:]))
+	if !bytes.Equal(raw, want.refBytes()) {
+		e.ctx.Failf("%s: stored registry entry of chain %d is %x, the approved request %v encodes to %x", what, want.Chain, raw, want, want.refBytes())
+	}
 }
 
 func (e *eng) scRegistered(chain uint64) scRec {
@@ -583,7 +723,7 @@ func scContent(chain uint64, owner common.Address, c int) *side_chain_manager.Re
 }
 
 func scRecOfParam(p *side_chain_manager.RegisterSideChainParam) scRec {
-	return scRec{Owner: p.Address, Router: p.Router, Name: p.Name, Blocks: p.BlocksToWait, CCMC: string(p.CCMCAddress), Extra: string(p.ExtraInfo), Present: true}
+	return scRec{Chain: p.ChainId, Owner: p.Address, Router: p.Router, Name: p.Name, Blocks: p.BlocksToWait, CCMC: string(p.CCMCAddress), Extra: string(p.ExtraInfo), Present: true}
 }
 
 func (e *eng) acctList(l []int) []common.Address {
@@ -804,6 +944,7 @@ func (e *eng) exec(op gop) stepRes {
 	if n, ok := firedNotify[op.K]; ok && sr.res.OK() {
 		sr.fired = hasNotify(sr.res, n)
 	}
+	e.pmUpdate(sr)
 	return sr
 }
 
